@@ -39,6 +39,15 @@ def plan(prop, tier, seed, B_quick=1):
             sizes = [(small, 2), (nq, 1)] if tier == "quick" else [(nq, 2), (nt, 1)]
             if spec == "mcp":
                 sizes = [(2, 2), (3, 1)]
+        elif prop == "C03":
+            # rewards are computed by batched gathers and, for some envs, python loops over batch rows: a second,
+            # smaller job with two independent rows exposes row mix-ups that B=1 cannot show
+            small = max(2, nq - 1) if spec not in NO_GENERATOR and spec != "svrp" else nq
+            sizes = [(nq, 1), (small, 2)] if tier == "quick" else [(nq, 2), (nt, 1)]
+            if spec == "mcp":
+                sizes = [(3, 1), (2, 2)]
+            if spec == "mtvrp" and tier == "quick":
+                sizes = [(nq, 1)]
         else:
             sizes = [(nq, B_quick)] if tier == "quick" else [(nq, 2), (nt, 1)]
         if spec == "pdp":
@@ -80,8 +89,19 @@ def confirm(rp, resp):
     return CF.confirm_episode(rp, resp)
 
 
+def quotas_differ(rp):
+    """selection envs: do the per-instance quotas differ inside the replayed batch? (the open FLP/MCP finding needs that)"""
+    td = rp.get("td") or (rp.get("batched") or {}).get("td") or {}
+    for k in ("to_choose", "n_sets_to_choose"):
+        if k in td:
+            flat = [x for x in CF.flat(td[k]["data"])]
+            return len(set(flat)) > 1
+    return False
+
+
 def signature(c, rp, resp, text):
-    return {"env": rp.get("spec"), "variant": rp.get("variant"), "what": text.split(":")[0][:80], "obligation_kind": c["obligation"].split(":")[-1].strip()[:60]}
+    return {"env": rp.get("spec"), "variant": rp.get("variant"), "what": text.split(":")[0][:80], "obligation_kind": c["obligation"].split(":")[-1].strip()[:60],
+            "quotas_differ": quotas_differ(rp)}
 
 
 def confirm_witness(rp, resp):
